@@ -67,6 +67,9 @@ Wire(r, u, closing) ==
        ELSE [head |-> "ok", fr |-> "selfdelim", close |-> close]   \* chunked, or raw + close: harness accepts both
   ELSE IF u.fr = "cl"      THEN [head |-> "ok", fr |-> "cl", close |-> close \/ u.ver = 10]   \* may close: origin did
   ELSE IF u.fr = "chunked" THEN [head |-> "ok", fr |-> "chunked", close |-> close]
+  \* delimited by the end of the origin's connection: towards an HTTP/1.1 client the body may be (and, since defect 58,
+  \* is) passed on in the chunked coding, so that an origin dying in the middle does not look like the end of the body
+  ELSE IF r.ver = 11 /\ u.ver = 11 THEN [head |-> "ok", fr |-> "selfdelim", close |-> TRUE]
   ELSE                          [head |-> "ok", fr |-> "raw", close |-> TRUE]           \* delimited by close
 
 (* ---------------- the connection as a state machine (model checking) ---------------- *)
